@@ -43,6 +43,12 @@ def _(c):
                "Conn._last_action", "Future.state", "Future.nres", "Future.exc", "Future.res", "Handle.cancelled")
     c.raises("transport-loss-malformed-frame-or-cancelled", "BaseException")
     c.loop(0, header="while True", invariants=[])
+    # "for any fragmentation of the incoming byte stream": a frame is the 4-byte size prefix and then exactly that many
+    # bytes, however the transport chunks them (readexactly); that body, whole and alone, is what gets dispatched
+    c.hook("before", "self._handle_frame", [
+        ("assert", "dispatches-exactly-the-body-the-size-prefix-announced", "a0 == resp and len(a0) == size"),
+        ("assert", "dispatches-to-the-live-connection", "$last is not None and self == $last"),
+    ])
     c.ensures_internal("ends-quietly-only-when-the-connection-object-is-gone", "$last is None")
     c.replay_fn = lambda model, ob=None: {"script": _READ_SCRIPT}
 
